@@ -114,7 +114,8 @@ claim('C10',
        'as written, int/size_t index arithmetic) never leaves the block or overlaps a memcpy, returns exactly the observations of a list of fixed-size elements '
        '(insert/nth/remove/rev/concat/firstn), keeps the first num elements equal to that list, never returns an undefined byte, leaves the state untouched on refusal, '
        'refuses every out-of-range index, preserves surviving elements on resize to any capacity and behaves like a fresh vector after resize 0. '
-       'Three defects of the pinned code were repaired first (resize(0) zeroed objsize; memcpy on overlapping ranges in remove_at; int byte count in remove_at). '
+       'C10_addself: an insert whose new element is the pointer getat(j, false) returned (into the block the call reallocates and shifts) inserts a copy of what position j held, with no read of the old block and no overlapping memcpy. '
+       'Four defects of the pinned code were repaired first (resize(0) zeroed objsize; memcpy on overlapping ranges in remove_at; int byte count in remove_at; addat read its own element through a stale pointer). '
        'Model tied to the code by lockstep execution: bounded-exhaustive (n<=6, index in [-n-2,n+2]) x ops x policies x objsize {1,3,8} x capacity 0..3, all short op sequences, random histories with objsize up to 64.',
   note='Trusted: Coq kernel, extraction (ExtrOcamlBasic only), gcc, harness/h_vec.c (with --wrap=memcpy overlap detection), ocaml/d_vec.ml. Allocation failure not modelled (C15); '
        'size_t products assumed not to wrap (max*objsize representable). Model tied to code by differential execution, not by a C semantics.',
